@@ -218,6 +218,10 @@ func (f *archiveFileWriter) Write(p []byte) (int, error) {
 	if err != nil {
 		return 0, err
 	}
+	if f.file != nil { // the previous entry is complete
+		f.file.Close()
+		f.file = nil
+	}
 	file, _, err := f.transfer.createDirOrFile(f.path, srcFile, true)
 	if err != nil {
 		return 0, err
